@@ -299,13 +299,15 @@ func (n *Net) RoundTrip(req *http.Request) (*http.Response, error) {
 		case <-req.Context().Done():
 		}
 		tm.Stop()
+		// park first, look afterwards: a goroutine woken by a real channel operation runs in
+		// parallel with the released task (and with other goroutines woken at the same instant),
+		// so whatever it reads before it is itself the released task depends on real timing
+		s.Yield("net.delay#woke")
 		// fixed priority (never Go's random choice among ready cases): cancellation first
 		if err := req.Context().Err(); err != nil {
-			s.Yield("net.delay#cancelled")
 			c.Outcome = "cancelled"
 			return nil, err
 		}
-		s.Yield("net.delay#done")
 	}
 	n.waitStall(req.Context())
 	if err := req.Context().Err(); err != nil {
@@ -392,13 +394,17 @@ func (n *Net) RoundTrip(req *http.Request) (*http.Response, error) {
 			case <-req.Context().Done():
 			case <-c.finished:
 			}
-			// fixed priority: a finished exchange needs no teardown
+			// park first, look afterwards (see the delay above); then fixed priority: a finished
+			// exchange needs no teardown
+			s.Yield("net.ctxwatch#woke")
 			select {
 			case <-c.finished:
 				return
 			default:
 			}
-			s.Yield("net.ctxwatch#cancelled")
+			if req.Context().Err() == nil {
+				return
+			}
 			c.clientAbort()
 		})
 	}
